@@ -1,18 +1,7 @@
 #!/bin/bash
-# usage: tools/try_seed.sh <patch.diff> <ID> [<ID>...] : apply a seeded change to /repo, run the checks, undo it
-patch=$1; shift
-cd /repo || exit 2
-if ! git apply --check "$patch" 2>/dev/null; then
-  if ! git apply --check -3 "$patch" 2>/dev/null && ! patch -p1 --dry-run -F3 < "$patch" >/dev/null 2>&1; then echo "PATCH DOES NOT APPLY: $patch"; exit 3; fi
-  patch -p1 -F3 --no-backup-if-mismatch -r - < "$patch" >/dev/null || { git -C /repo checkout -- .; echo "PATCH REJECTED: $patch"; exit 3; }
-else
-  git apply "$patch"
-fi
-git -C /repo diff --stat | tail -1
-cd /verif
-for id in "$@"; do
-  out=$(timeout 3000 ./check $id 2>/tmp/try_seed_err.txt); rc=$?
-  echo "== $id rc=$rc"; echo "$out" | grep -E "VIOLATION|KNOWN" | head -5
-  tail -2 /tmp/try_seed_err.txt
-done
-git -C /repo checkout -- . ; git -C /repo status --short | grep -v _build | head
+# usage: tools/try_seed.sh <seed name> <check id>... : apply the seeded change to /repo's working tree, run the quick checks, revert
+cd /verif; s=$1; shift
+git -C /repo checkout -- . && git -C /repo apply /verif/seeded/$s/patch.diff || exit 2
+for c in "$@"; do timeout 3000 ./check $c --tier quick 2>&1 | grep -E "VIOLATION|done in" ; done
+git -C /repo checkout -- .
+rm -rf /verif/replay/*
